@@ -209,6 +209,7 @@ class DocGen:
 
 
 _gens: dict[int, DocGen] = {}
+rx.on_reset(_gens.clear)
 
 
 def docgen(rs: RefSchema) -> DocGen:
